@@ -65,9 +65,9 @@ func FmtDiffs(input string) ([]FmtDiff, error) {
 					NewText:  "",
 				})
 			}
-		} else if diff.FromLine > lastEnd+1 {
+		} else if diff.FromLine > lastEnd+1 || (diff.FromLine == lastEnd+1 && lines.lines[lastEnd] != "") {
 			// FromLine == LastEnd  means no gap
-			// FromLine == LastEnd + 1  is one line gap, OK
+			// FromLine == LastEnd + 1  is one line gap, OK if it is empty
 			// FromLine > LastEnd + 1 should be one line
 			out = append(out, FmtDiff{
 				FromLine: lastEnd,
